@@ -656,6 +656,18 @@ def check_conditions(ctx, tag, n):
                 seen = sv
             elif sv != seen:
                 ctx.failing('the separator %r between %r and %r gives another conjunction than ` or `' % (o, a, b), {'class': 'or-spelling', 'text': a + o + b}, found=True)
+    ftexts = fconds_corpus(ctx.seed, max(400, n // 2)) + texts[::3]
+    fout = run_fconds(ftexts, ctx.wd, tag + 'f')
+    fstats = {}
+    for t, v, r in fout:
+        fstats[v] = fstats.get(v, 0) + 1
+        if v in ('PLAgree', 'PLAgreeReject', 'PLNotModelled'):
+            continue
+        ctx.failing('conditions over filtered queries %r: single_clauses answers %s, the model says otherwise (%s)' % (t[:80], json.dumps(r)[:200], v),
+                    {'class': 'conditions-with-filters-correspondence', 'text': t, 'impl': r, 'verdict': v}, found=False)
+    ctx.coverage['conditions_with_filters_texts'] = len(ftexts)
+    ctx.coverage['conditions_with_filters_verdicts'] = fstats
+    ctx.coverage['evaluations'] += len(ftexts)
     ctx.coverage['conditions_texts'] = len(texts)
     ctx.coverage['conditions_verdicts'] = stats
     ctx.coverage['evaluations'] += len(texts) + len(ops)
@@ -878,6 +890,106 @@ def run_fclauses(texts, wd, tag='cfparse'):
         cases.append((i, '', 'clause_f_obs %s %s %s' % (rv, ct.cstr(t), it)))
         out[i] = (t, None, r['res'])
     verdicts, errors = model.eval_cases(cases, wd, tag, header=CF_HEADER, per_file=120)
+    if errors:
+        raise ToolingError('model evaluation failed: %r' % (errors[:1],))
+    for i, _, _ in cases:
+        out[i] = (out[i][0], verdicts.get(i, 'NoModelOutput'), out[i][2])
+    return out
+
+
+# ------------------------------------------------------------------ conditions over clauses with filtered queries (CnfFParse.single_clauses_f)
+CNF_HEADER = ('From Coq Require Import String ZArith NArith List.\nFrom GV.Model Require Import Ast.\nFrom GV.Model Require Import ValueParse QueryParse OpParse ClauseParse CnfParse FilterParse ClauseFParse CnfFParse.\n'
+              'Import ListNotations.\n')
+
+
+def impl_fwhen_term(w):
+    k = w[0]
+    if k == 'WClause':
+        ac = w[1]
+        aq, cmp_, rhs, custom, neg = ac[1], ac[2], ac[3], ac[4], ac[6]
+        rhs = rhs['O'] if isinstance(rhs, dict) and 'O' in rhs else rhs
+        if rhs is None:
+            wt = 'IFRNone'
+        elif rhs[0] == 'LValue':
+            try:
+                wt = '(IFRLit %s)' % pv_lit_term(rhs[1])
+            except ct.TranslateError:
+                wt = 'IFROther'
+        elif rhs[0] == 'LAccess':
+            wt = '(IFRQuery %s %s)' % fparts_term(rhs[1])
+        else:
+            wt = 'IFROther'
+        parts, all_ = fparts_term(aq)
+        return '(IFWClause %s %s %s O%s %s %s %s)' % (ct.cbool(neg), parts, all_, cmp_[1], ct.cbool(cmp_[2]), wt, ct.ostr(custom))
+    if k == 'WNamedRule':
+        g = w[1]
+        return '(IFWNamed %s %s %s)' % (ct.cstr(ct.S(g[1])), ct.cbool(g[2]), ct.ostr(g[3]))
+    return 'IFWOther'
+
+
+def impl_fconds_term(res):
+    if res[0] != 'Ok':
+        return {'Error': 'IFCNError', 'Failure': 'IFCNFailure'}.get(res[0], 'IFCNOther')
+    lines = [ct.clist([impl_fwhen_term(w) for w in ct.L(d)]) for d in ct.L(res[1])]
+    return '(IFCNOk %s %d%%N)' % (ct.clist(lines), res[2])
+
+
+def fconds_corpus(seed, n):
+    rng = random.Random(seed * 2003 + 14)
+    felems = ["Resources.*[ Type == 'T' ] !empty", "a[ b == 1 ].c == 2", '%v[ k | x exists ].y in [1, 2] <<m>>', "a[ keys == 'k' ] exists", 'not a[ b == 1 or c == 2 ] empty', "x == y[ z == 1 ]",
+              "a[ b == 1 ][ c == 2 ] exists", "a[ b[ c == 1 ] exists ] exists", 'a[ b == 1', 'a[ when b exists { c exists } ] exists']
+    texts = []
+    for e in felems:
+        texts += [e, e + '\nmyrule', 'myrule or ' + e, e + ' or ' + e, e + '\n' + e + ' {', 'not r1\n' + e + '\n}']
+    while len(texts) < n:
+        lines = []
+        for _ in range(rng.choice([1, 2, 2, 3])):
+            alts = [rng.choice(felems) if rng.random() < 0.5 else rng.choice(CN_ELEMS) for _a in range(rng.choice([1, 1, 2, 3]))]
+            line = alts[0]
+            for a in alts[1:]:
+                line += rng.choice(CN_ORS[:10]) + a
+            lines.append(line)
+        t = rng.choice(LAYOUTS) + rng.choice(CN_SEPS[:6]).join(lines) + rng.choice(CN_TAILS)
+        texts.append(t)
+        if rng.random() < 0.25:
+            texts.append(mutate(t, rng))
+    seen, out = set(), []
+    for t in texts:
+        if t not in seen:
+            seen.add(t); out.append(t)
+    return out
+
+
+def run_fconds(texts, wd, tag='cnfparse'):
+    from . import vparse
+    res = impl.run_ops_parallel([{'op': 'pconds', 'text': t} for t in texts], wd, tag + '.pn')
+    cands = sorted(set().union(*[vparse.regex_candidates(t) for t in texts])) if texts else []
+    cand_txt = []
+    for c in cands:
+        try:
+            cand_txt.append(c.decode('utf-8'))
+        except UnicodeDecodeError:
+            pass
+    rres = impl.run_ops_parallel([{'op': 'regex', 're': c, 'text': ''} for c in cand_txt], wd, tag + '.re') if cand_txt else []
+    valid = {}
+    for c, r in zip(cand_txt, rres):
+        rr = r.get('res')
+        valid[c] = bool(rr) and rr[0] == 'Ok'
+    cases, out = [], [None] * len(texts)
+    for i, (t, r) in enumerate(zip(texts, res)):
+        if 'res' not in r:
+            out[i] = (t, 'crash', r)
+            continue
+        mine = [c for c in cand_txt if c.encode('utf-8') in vparse.regex_candidates(t)] if '/' in t else []
+        table = ct.clist(['(%s, %s)' % (ct.cstr(c), ct.cbool(valid[c])) for c in mine])
+        rv = '(fun s => match assoc s %s with Some b => b | None => false end)' % table
+        try:
+            it = impl_fconds_term(r['res'])
+        except (ct.TranslateError, KeyError, IndexError, TypeError):
+            it = 'IFCNOther'
+        cases.append((i, '', 'conds_f_obs %s %s %s' % (rv, ct.cstr(t), it)))
+        out[i] = (t, None, r['res'])
+    verdicts, errors = model.eval_cases(cases, wd, tag, header=CNF_HEADER, per_file=100)
     if errors:
         raise ToolingError('model evaluation failed: %r' % (errors[:1],))
     for i, _, _ in cases:
